@@ -213,3 +213,22 @@ CHECKS["C19"] = {
     "groups": [{"engine": "mir", "features": [], "scenarios": [m("macro_runtime", "scripted actor, 2 clients, tell/ask mix, all schedules", "on_tell_result once per tell with the handler's value, never for asks, directly after the handler")]},
                {"engine": "mir", "features": ["verif-corpus"], "scenarios": [m("macro_corpus", "8 programs x symbolic state and payloads", "see explanation", xval=False)]}],
 }
+
+# ---- Kani first-poll harnesses (real Rust semantics and types; every future polled once) ----
+_FP = {
+    "tell": k("firstpoll::fp_tell_free_and_closed", "mailbox free/closed symbolic, message id symbolic; one poll", "Ok => exactly one envelope enqueued, no dead letter; Err(Send) => nothing enqueued, one dead letter (actor id, message TYPE, 'tell', ActorStopped)"),
+    "ask": k("firstpoll::fp_ask_closed_and_accepted", "mailbox free/closed symbolic; one poll", "accepted => pending with one envelope; closed => Err(Send) + dead letter ('ask', ActorStopped, message type)"),
+    "tellt": k("firstpoll::fp_tell_timeout_zero_on_full", "full mailbox, timeout 0; one poll", "Err(Timeout) at the first poll, is_retryable, the timer got the caller's duration, one dead letter ('tell', Timeout), nothing enqueued, nobody left queued for a slot"),
+    "stop": k("firstpoll::fp_stop_free_and_closed", "mailbox free/closed symbolic; one poll", "stop() Ok at once; marker enqueued iff open; no dead letter"),
+    "retry": k("firstpoll::fp_is_retryable_iff_timeout", "6 Error variants, symbolic fields", "is_retryable <=> Timeout"),
+}
+_KTRUST = ["Kani 0.68 / CBMC 6.11 / cadical", "Rust tokio model (/verif/models/tokio)", "dead_letter::record replaced by a logging stub with the same signature (kani::stub)"]
+CHECKS["C13"]["groups"].insert(0, {"engine": "kani", "features": [], "timeout": 400, "harnesses": [_FP["tell"], _FP["ask"], _FP["tellt"]]})
+CHECKS["C10"]["groups"].insert(0, {"engine": "kani", "features": [], "timeout": 400, "harnesses": [_FP["retry"], _FP["tellt"]]})
+CHECKS["C01"]["groups"].insert(0, {"engine": "kani", "features": [], "timeout": 400, "harnesses": [_FP["tell"], _FP["stop"]]})
+for _p in ("C13", "C10", "C01"):
+    CHECKS[_p]["technique"] = "Kani/CBMC (first-poll paths of the real send functions, real types) + " + CHECKS[_p]["technique"]
+    CHECKS[_p]["trusted_base"] = CHECKS[_p]["trusted_base"] + _KTRUST
+    CHECKS[_p]["assumptions"] = CHECKS[_p]["assumptions"] + STUBS
+CHECKS["C13"]["outside"] = "the counter under real thread concurrency (a single Relaxed fetch_add per record, see C11's interleaving argument); the text of the tracing event"
+CHECKS["C10"]["outside"] = "the real timer wheel; wall-clock behaviour of the blocking variants (C17)"
